@@ -89,6 +89,24 @@ theorem spec_nearest_first (t : RawTree) (lk : Lookup) (Q : List Gene) (m : Nat)
   · left
     exact ⟨by omega, by simp [hge]⟩
 
+/-- "... until the minimum is reached": after the fallback a non-root parent
+has at least `m` genes of the query, unless the table is exhausted — then it
+has every gene of the query listed for it, for ANY of its ancestors present in
+the table, or for the root. -/
+theorem min_reached_or_exhausted (t : RawTree) (lk : Lookup) (Q : List Gene) (m : Nat) (l : Level)
+    (n : Node) (hlt : countQ Q ((get? lk (some (l, n))).getD []) < m) :
+    m ≤ (specGenes t lk Q m (some (l, n))).length ∨
+    specGenes t lk Q m (some (l, n)) =
+      interQ Q ((get? lk (some (l, n))).getD [] ++
+        ((ancestorKeys t l n).filterMap (get? lk)).flatten ++ (get? lk none).getD []) := by
+  obtain ⟨k, _, _, h | ⟨hk, _, h⟩⟩ := spec_nearest_first t lk Q m l n hlt
+  · left
+    rw [h.2]
+    exact h.1
+  · right
+    rw [h, hk, List.take_length]
+
+
 /-- "... are the parent's listed markers that occur in the query" when enough
 of them remain, and always for the root: no fallback. -/
 theorem spec_enough (t : RawTree) (lk : Lookup) (Q : List Gene) (m : Nat) (p : PKey)
@@ -269,6 +287,40 @@ theorem flatten_union (lk : Lookup) :
       ∀ g, g ∈ genes ↔ ∃ e ∈ lk, g ∈ e.2 :=
   flattenLookup_spec lk
 
+/-- "flattening unions every list into the root's" — end to end: in a flattened
+run the only parent is the root, and the genes it uses (= reports) are exactly
+the genes of the query that occur in ANY list of the original table. -/
+theorem flatten_spec (t : RawTree) (hT : TreeWF t.flatten) (lk : Lookup) (R Q : List Gene) (m : Nat)
+    (c : Cache) (h : createCache (some t.flatten) (flattenLookup lk) R Q m = .ok c)
+    (hc : Consulted t.flatten none) :
+    ∃ names, assemble c none = .ok names ∧ reportedGroup c none = .ok names ∧
+      ∀ g, g ∈ names ↔ g ∈ Q ∧ ∃ e ∈ lk, g ∈ e.2 := by
+  obtain ⟨_, names, _, _, _, hrep, hass, hmem, _⟩ :=
+    spec t.flatten hT (flattenLookup lk) R Q m c h none (by simp [RawTree.allParents]) hc
+  refine ⟨names, hass, hrep, fun g => ?_⟩
+  rw [hmem, spec_enough _ _ _ _ _ (Or.inl rfl)]
+  obtain ⟨genes, hfl, _, hg⟩ := flatten_union lk
+  rw [hfl, mem_interQ]
+  simp only [get?, List.lookup_cons, beq_self_eq_true, Option.getD_some]
+  rw [hg]
+  exact And.comm
+
+
+/-! ## the whole marker stage -/
+
+/-- once the cache is written, the rest of the marker stage of a run without
+`drop_level` / `flatten` cannot fail (`reconcile_taxonomy_and_markers`, the
+per-node `assemble_query_data` gene lists, `serialize_markers`), and for every
+consulted parent the genes used are the genes reported.  `Populated`: every
+parent has at least one child. -/
+theorem stage_succeeds (t : RawTree) (hT : TreeWF t) (hpop : Populated t) (lk : Lookup) (R Q : List Gene)
+    (m : Nat) (c : Cache) (h : createCache (some t) lk R Q m = .ok c) :
+    ∃ out, stage t lk R Q m none false = .ok out ∧
+      (∀ e ∈ out.used, e.1 ∈ t.allParents ∧ Consulted t e.1 ∧ assemble c e.1 = .ok e.2 ∧
+        reportedGroup c e.1 = .ok e.2) ∧
+      (∀ e ∈ out.reported, ReportedEntry t c e.1 e.2) :=
+  stage_ok t (treeOK_of_wf t hT) hpop lk R Q m c h
+
 /-! ## non-vacuity: a concrete run meets the hypotheses
 
 levels 0 (class), 1 (subclass), 2 (cluster); class 10 has subclasses 20, 21;
@@ -290,6 +342,14 @@ example : Consulted t0 none := ⟨[10, 11], rfl, by decide⟩
 /-- the fallback is exercised: subclass 20 gets its own gene 4 plus class 10's gene 2 -/
 example : specGenes t0 lk0 [4, 3, 2, 1] 2 (some (1, 20)) = [4, 2] := by decide
 example : (createCache (some t0) lk0 [1, 2, 3, 4, 7, 9] [4, 3, 2, 1] 2).toBool = true := by decide
+example : Populated t0 := by
+  intro p hp ch hc
+  have hall : ∀ p ∈ t0.allParents, (match childrenOf t0 p with
+      | .ok ch => decide (1 ≤ ch.length)
+      | .error _ => true) = true := by decide
+  have := hall p hp
+  rw [hc] at this
+  simpa using this
 /-- the hypotheses of the rejection theorems are met by small variants -/
 example : specGenes t0 lk0 [8] 1 (some (1, 20)) = [] := by decide
 example : interQ [8] ((get? lk0 none).getD []) = [] := by decide
